@@ -301,7 +301,7 @@ pub fn gen_font(ctx: &mut Ctx, rng: &mut Rng, profile: &'static str, case: u64) 
                         let frac = rng.chance(1, 5);
                         let mut dq: Vec<(i32, i32)> = gen_deltas(rng, &coords, &ends, tol, frac)
                             .into_iter()
-                            .map(|d| (d.0.clamp(-16000, 16000), d.1.clamp(-16000, 16000)))
+                            .map(|d| (d.0.clamp(-8000, 8000), d.1.clamp(-8000, 8000)))
                             .collect();
                         if zero_pp0 {
                             dq[n - 4] = (0, 0);
